@@ -247,6 +247,10 @@ func runStoreProp(prop, tier string, r *rng) {
 	n := 300
 	if tier == "thorough" {
 		n = 6000
+		// small-scope exhaustive: every op sequence up to length 5 (11 relative ops) on a 9-header chain
+		exhaustiveStoreCases(prop, 5, 2, "plain")
+		exhaustiveStoreCases(prop, 3, 1, "ctx")
+		exhaustiveStoreCases(prop, 3, 64, "plain")
 	}
 	if prop == "C04" {
 		parFailCase(prop, 40, 31, 12, 4, true)
@@ -554,4 +558,106 @@ func flushInHandlerCase(prop string, n, to, more, batch int) {
 	}
 	emit("%s kind=flushinhandler n=%d to=%d more=%d batch=%d => delete=%s head=%d tail=%d stored=%s keys=%s second=%s handledTwice=%d", prop, n, to, more, batch,
 		errs(e1), hd, tl, js(stored), js(keys), errs(e2), twice)
+}
+
+// exhaustiveStoreCases: EVERY sequence of up to L operations from a state-relative alphabet over a short chain (thorough
+// tier): appends at the top / beyond a gap / into the lowest hole / below the tail, sync, the four DeleteRange shapes,
+// restart. Each operation is followed by an observation.
+func exhaustiveStoreCases(prop string, L int, batch int, flavour string) {
+	const nOps = 11
+	var rec func(prefix []int)
+	rec = func(prefix []int) {
+		if len(prefix) > 0 {
+			exhaustiveOne(prop, prefix, batch, flavour)
+		}
+		if len(prefix) == L {
+			return
+		}
+		for k := 0; k < nOps; k++ {
+			if len(prefix) == 0 && k >= 4 {
+				continue // a sequence starts with an append (anything else on an empty store is covered by length-1 prefixes of others)
+			}
+			rec(append(append([]int{}, prefix...), k))
+		}
+	}
+	rec(nil)
+}
+
+func exhaustiveOne(prop string, ops []int, batch int, flavour string) {
+	cfg := storeCfg{batch: batch, cache: 3, flavour: flavour, n: 9}
+	caseNo++
+	emit("case %d %s batch=%d cache=%d flavour=%s n=%d ranges=%d par=%d", caseNo, prop, cfg.batch, cfg.cache, cfg.flavour, cfg.n, 0, 0)
+	run := newStoreRun(cfg, memdsCore())
+	if err := run.open(); err != nil {
+		emit("ob res=openerr")
+		emit("end")
+		return
+	}
+	g := &storeGen{prop: prop, run: run}
+	n := uint64(cfg.n)
+	appended := map[uint64]bool{}
+	app := func(hs ...uint64) {
+		var kept []uint64
+		for _, h := range hs {
+			if h >= 1 && h <= n {
+				kept = append(kept, h)
+				appended[h] = true
+				if h > g.top {
+					g.top = h
+				}
+			}
+		}
+		if len(kept) > 0 {
+			g.do(storeOp{kind: "append", hs: kept})
+		}
+	}
+	for _, k := range ops {
+		hd, tl, ok := g.ends()
+		switch k {
+		case 0:
+			app(g.top + 1)
+		case 1:
+			app(g.top+1, g.top+2)
+		case 2:
+			app(g.top + 2) // leaves a gap
+		case 3:
+			app(g.top+3, g.top+2) // beyond a gap, descending
+		case 4: // the lowest hole above the tail
+			for h := uint64(1); h <= g.top; h++ {
+				if !appended[h] && (!ok || h > tl) {
+					app(h)
+					break
+				}
+			}
+		case 5:
+			if ok && tl > 1 {
+				app(tl - 1) // below the tail
+			}
+		case 6:
+			g.do(storeOp{kind: "sync"})
+		case 7:
+			if ok {
+				g.do(storeOp{kind: "sync"})
+				g.do(storeOp{kind: "delete", a: tl, b: tl + 1})
+				delete(appended, tl)
+			}
+		case 8:
+			if ok {
+				g.do(storeOp{kind: "sync"})
+				g.do(storeOp{kind: "delete", a: hd, b: hd + 1})
+			}
+		case 9:
+			if ok {
+				g.do(storeOp{kind: "sync"})
+				g.do(storeOp{kind: "delete", a: tl + 1, b: hd}) // mid-chain or empty: rejected
+			}
+		case 10:
+			g.do(storeOp{kind: "sync"})
+			g.do(storeOp{kind: "restart"})
+		}
+		g.do(storeOp{kind: "sync"})
+		g.do(storeOp{kind: "observe"})
+	}
+	run.close()
+	emit("end")
 }
